@@ -11,7 +11,8 @@ if typing.TYPE_CHECKING:
 
 
 def _hamming_distance(x: torch.Tensor, y: torch.Tensor) -> torch.Tensor:
-    return torch.sum((x != y), dim=1)
+    # States may be matrix-shaped (k, n, m); compare them flattened with the flat central state.
+    return torch.sum((x != y.reshape((y.shape[0], -1))), dim=1)
 
 
 class Predictor:
